@@ -177,14 +177,17 @@ static std::string show_msg(const std::string &b)
 static void run_config(Rng &r)
 {
     Config c = gen_config(r);
-    bool nested = r.chance(0.5);
+    int nest = (int)r.below(3);        // 0: at the root, 1: below "sub/", 2: below an enumerated "voice#4/" (a digit in front of the port's own name)
+    bool nested = nest != 0;
+    int voice = (int)r.below(4);
     std::deque<std::string> keep;
     g_leaf.set({rtosc::Port{c.full.c_str(), c.meta.c_str(), 0, c.cb}});
     static DynPorts *leafp = &g_leaf;
-    g_root.set({rtosc::Port{"sub/", 0, &g_leaf, [](const char *m, rtosc::RtData &d) { while(*m && *m != '/') ++m; if(*m) ++m; leafp->dispatch(m, d); }}});
+    g_root.set({rtosc::Port{nest == 2 ? "voice#4/" : "sub/", 0, &g_leaf, [](const char *m, rtosc::RtData &d) { while(*m && *m != '/') ++m; if(*m) ++m; leafp->dispatch(m, d); }}});
     rtosc::Ports &top = nested ? (rtosc::Ports &)g_root : (rtosc::Ports &)g_leaf;
-    std::string prefix = nested ? "/sub/" : "/";
-    std::string cdesc = render_cfg(c) + (nested ? " under sub/" : "");
+    std::string prefix = nest == 2 ? fmt("/voice%d/", voice) : nested ? "/sub/" : "/";
+    std::string cdesc = render_cfg(c) + (nest == 2 ? " under voice#4/ as " + prefix : nested ? " under sub/" : "");
+    if(nest == 2) count("nesting.below_enumerated_subtree");
     count(std::string("kind.") + KNAME[c.kind]);
     if(c.split_map) count("options.split_mapping_block");
     distinct(hash_str(cdesc + c.meta));
